@@ -75,16 +75,12 @@ def check_hash(ctx, case):
         ctx.violation("body key 7 is not the hash of the auxiliary data shipped in the same transaction", desc, b2(aux_s).hex(),
                       repr(key7(body_s))[:80])
     # the decoded transaction: its auxiliary data hashes to the same digest and is shipped as the same bytes
-    none_scripts = a["k"] == "shelley_ma" and a["native"] is None
     try:
         tx2 = Transaction.from_cbor(txb)
         err = None
     except Exception as e:
         tx2, err = None, e
-    if none_scripts:
-        ctx.count("md-hash:shelley_ma-native-None:" + ("decodes" if err is None else X.classify(err)))
-        ctx.skipped += 1
-    elif err is not None:
+    if err is not None:
         ctx.violation(f"a transaction with auxiliary data cannot be decoded ({type(err).__name__}: {str(err)[:100]})", desc,
                       "a transaction", X.classify(err))
     else:
@@ -183,8 +179,7 @@ def dispatch(ctx, case):
 
 def run_ext(ctx):
     ctx.assumptions.append("auxiliary-data hash: BLAKE2b is hashlib's (the theorems quantify over the hash function); "
-                           "ShelleyMarryMetadata(native_scripts=None) is hashed and shipped like any other object but the "
-                           "transaction that carries it cannot be decoded (C01 theorem shelley_ma_none_crashes): not judged")
+                           "the driver is given the constructor arguments and applies the model of the constructor (normAux)")
     j = 0
     for i in range(ctx.budget(360, 5000)):
         era = X.ERAS[i % 3]
